@@ -4,9 +4,9 @@ namespace Tpp.Driver.Markup
 open Tpp Tpp.Driver
 
 /-- model answer for a case line of this slice; `none` when the kind is not ours -/
-def run (kind : Char) (rest : String) : Option String := none
+def run (_kind : Char) (_rest : String) : Option String := none
 
 /-- oracle verdict (`ok` / `FAIL <ids> …`) given the case, the configuration prefix and the real answer -/
-def oracle (kind : Char) (cfg rest real : String) : Option String := none
+def oracle (_kind : Char) (_cfg _rest _real : String) : Option String := none
 
 end Tpp.Driver.Markup
